@@ -251,7 +251,11 @@ def fe_axis_drop(ctx):
         for n in ast.walk(f.node):
             if isinstance(n, ast.Subscript) and isinstance(n.value, ast.Name) and n.value.id in fevars and isinstance(n.ctx, ast.Load) and isinstance(n.slice, ast.Tuple) and len(n.slice.elts) == 2:
                 e0, e1 = n.slice.elts
-                scalar = lambda e: (isinstance(e, ast.Constant) and isinstance(e.value, int)) or (isinstance(e, ast.Name) and len(e.id) <= 2)
+                loopnames = set()
+                for lp in ast.walk(f.node):
+                    if isinstance(lp, (ast.For, ast.comprehension)):
+                        loopnames |= {x.id for x in ast.walk(lp.target) if isinstance(x, ast.Name)}
+                scalar = lambda e: (isinstance(e, ast.Constant) and isinstance(e.value, int)) or (isinstance(e, ast.Name) and e.id in loopnames)
                 if not (scalar(e0) and scalar(e1)):
                     continue
                 # only loop indices / literals count as scalars: e must be a for-loop target or int constant
